@@ -51,11 +51,12 @@ Node(cls, f)  == [t |-> "N", cls |-> cls, f |-> f]
 ChildrenOnly == {"Sum", "Product", "Min", "Max", "BitwiseOr", "BitwiseXor", "BitwiseAnd",
                  "LogicalOr", "LogicalAnd", "Slice"}
 NoField  == {"Wildcard", "FunctionSymbol", "Leaf", "AlgebraicLeaf"}
-NameOnly == {"Variable", "DotWildcard", "StarWildcard", "UVar"}
+NameOnly == {"Variable", "DotWildcard", "StarWildcard", "UVar", "MultiVectorVariable"}
 QuotKinds == {"Quotient", "FloorDiv", "Remainder", "QuotientBase"}
 ShiftKinds == {"LeftShift", "RightShift"}
 ChildOnly == {"BitwiseNot", "LogicalNot"}
-UserClasses == {"URoot", "UChild", "ULeg", "ULegChild", "UPlain", "UVar", "UTagVar", "UInit"}
+UserClasses == {"URoot", "UChild", "ULeg", "ULegChild", "UPlain", "UVar", "UTagVar", "UInit",
+                "UPlain2", "ULegGrand", "ULegGrandD", "ULegChildPlain", "UMVTag"}
 
 FieldsOf(cls) ==
     CASE cls \in ChildrenOnly -> << "children" >>
@@ -75,24 +76,54 @@ FieldsOf(cls) ==
       [] cls = "Substitution" -> << "child", "variables", "values" >>
       [] cls = "Derivative"   -> << "child", "variables" >>
       [] cls = "NaN"          -> << "data_type" >>
-      [] cls \in {"URoot", "ULeg", "UPlain", "UInit"} -> << "u", "v" >>
-      [] cls \in {"UChild", "ULegChild"}     -> << "u", "v", "w" >>
-      [] cls = "UTagVar"      -> << "name", "tag" >>
+      [] cls \in {"URoot", "ULeg", "UPlain", "UInit", "UPlain2"} -> << "u", "v" >>
+      [] cls \in {"UChild", "ULegChild", "ULegGrand", "ULegChildPlain"} -> << "u", "v", "w" >>
+      [] cls = "ULegGrandD"   -> << "u", "v", "w", "x" >>
+      [] cls \in {"UTagVar", "UMVTag"} -> << "name", "tag" >>
 
 TmplOf(cls) ==
     CASE cls \in {"URoot", "UInit"} -> "deco-root"
       [] cls = "UChild"    -> "deco-child"
       [] cls = "UTagVar"   -> "deco-child"
       [] cls = "ULeg"      -> "legacy"
-      [] cls = "ULegChild" -> "legacy-child"
-      [] cls = "UPlain"    -> "plain-child"
-      [] cls = "UVar"      -> "plain-child"
+      [] cls \in {"ULegChild", "ULegGrand", "ULegGrandD", "ULegChildPlain", "UMVTag"} -> "legacy-child"
+      [] cls \in {"UPlain", "UPlain2", "UVar", "MultiVectorVariable"} -> "plain-child"
       [] OTHER             -> "builtin"
+
+(***************************************************************************)
+(* Three-level hierarchies (round 2).  ParentOf is the direct base class   *)
+(* ("" = Expression or a class whose base is of no interest here):         *)
+(*   URoot -> UPlain -> UPlain2            plain below plain               *)
+(*   URoot -> UPlain -> ULegGrand(+w)      legacy below an undecorated     *)
+(*                                         class with the same init args   *)
+(*   URoot -> UChild(+w, decorated) -> ULegGrandD(+x)                      *)
+(*   URoot -> ULegChild(+w) -> ULegChildPlain   inherits the legacy args   *)
+(*   Variable -> MultiVectorVariable (built in, undecorated) -> UMVTag(+tag)*)
+(* A class whose instances still run the generated __eq__/__hash__ of a    *)
+(* decorated ancestor is "undecorated"; whatever those functions remember  *)
+(* per class is class-level state and the order in which the classes are   *)
+(* first used is part of a history.                                        *)
+(***************************************************************************)
+ParentOf(cls) ==
+    CASE cls \in {"UChild", "ULegChild", "UPlain"} -> "URoot"
+      [] cls \in {"UPlain2", "ULegGrand"}  -> "UPlain"
+      [] cls = "ULegGrandD"      -> "UChild"
+      [] cls = "ULegChildPlain"  -> "ULegChild"
+      [] cls \in {"UVar", "UTagVar", "MultiVectorVariable"} -> "Variable"
+      [] cls = "UMVTag"          -> "MultiVectorVariable"
+      [] OTHER                   -> ""
+Undecorated(cls) == TmplOf(cls) \in {"plain-child", "legacy-child"}
+\* cls, its base, ... as long as they are undecorated (nearest first)
+RECURSIVE UndecoChain(_)
+UndecoChain(cls) == IF cls = "" \/ ~Undecorated(cls) THEN << >>
+                    ELSE << cls >> \o UndecoChain(ParentOf(cls))
 
 \* number of leading fields that are dataclass fields of the closest decorated ancestor
 OwnCount(cls) ==
     CASE cls = "ULeg"      -> 0
-      [] cls = "ULegChild" -> 2
+      [] cls \in {"ULegChild", "ULegGrand", "ULegChildPlain"} -> 2
+      [] cls = "ULegGrandD" -> 3
+      [] cls = "UMVTag"    -> 1
       [] OTHER             -> Len(FieldsOf(cls))
 
 IsDataclassInstance(cls) == cls # "ULeg"
